@@ -36,6 +36,18 @@ fn main() {
                     unicode_normalization::is_nfc(&s) as u8, unicode_normalization::is_nfkc(&s) as u8);
             }
         }
+        Some("info") => {
+            // per character: lower | is_lowercase | nfd | nfkd
+            for h in &args[2..] {
+                let cp = u32::from_str_radix(h, 16).unwrap();
+                let c = char::from_u32(cp).unwrap();
+                let cs = c.to_string();
+                let lower: String = c.to_lowercase().collect();
+                let nfd: String = cs.nfd().collect();
+                let nfkd: String = cs.nfkd().collect();
+                println!("{:X} | {} | {} | {} | {}", cp, hexs(&lower), c.is_lowercase() as u8, hexs(&nfd), hexs(&nfkd));
+            }
+        }
         Some("hascompat") => {
             let mut start: Option<u32> = None;
             for cp in 0..=0x110000u32 {
